@@ -60,6 +60,9 @@ RAWC = {
     "subst-html": ("raw", lambda i: "{{rawsub}}\n"),
     "title-attr": ("esc", lambda i: f"[l](u '{S(i)}')\n"),
     "comment": ("rawnode-html", lambda i: f"<!-- {S(i)} -->\n"),
+    "footnote-html": ("raw", lambda i: f"ref[^f{i}]\n\n[^f{i}]: note with {S(i)} and a\\\n  break\n"),
+    "footnote-block": ("raw", lambda i: f"ref[^g{i}]\n\n[^g{i}]: first\n\n    <div>{S(i)}</div>\n"),
+    "hardbreak-para": ("rawnode", lambda i: "p\\\nq\n"),
 }
 # kind: read -> must not be read / inserted when file insertion is disabled;  noread -> never reads
 FILEC = {
@@ -151,7 +154,7 @@ class SecuritySystem(System):
                     yield [[c], list(x)]
         # runs of adjacent raw constructs (siblings) — the scrub loop must visit all of them
         inl = ["htmlinline", "htmlinline3", "hardbreak-html", "rawrole"]
-        blk = ["htmlblock", "rawdir", "rst-raw", "admon", "comment"]
+        blk = ["htmlblock", "rawdir", "rst-raw", "admon", "comment", "hardbreak-para", "footnote-html"]
         for n in (2, 3, 4) if self.depth >= 2 else (2, 3):
             for combo in itertools.product(blk, repeat=n):
                 if n >= 3 and len(set(combo)) > 2:
